@@ -38,7 +38,7 @@ def gen_case(rng, tier, i):
     warm = rng.choice([0, 2, 5, length // 2, length, 3, 4])
     prog = gen_program(rng, clock=clock, n_events=rng.randint(6, 40), with_bad=False, horizon=length, warm=warm,
                        with_cancel=rng.random() < 0.3, start_at=(2 ** 30 if clock != "duration" and i % 5 == 4 else None))
-    add_stats(rng, prog, watch=True, density=0.9)
+    add_stats(rng, prog, watch=True, density=0.9, baseline=True)
     if rng.random() < 0.3:
         from vlib.proggen import add_oneshot_simlisteners
         add_oneshot_simlisteners(rng, prog)     # the model's own warm-up listeners come and go; every statistic still gets its reset
@@ -169,7 +169,12 @@ def run_case(case, ctx):
             key, kind, via = sp["key"], sp["kind"], sp.get("via")
             st = created[key]
             obs = [(i, r) for i, r in enumerate(tl) if r[0] == "o" and r[1] == key]
-            post = [r for i, r in obs if i > wi]
+            # (a baseline registered from the statistic's own INITIALIZED notification is made after the reset by
+            # construction, although the recorder hears of the warm-up only afterwards)
+            base_ = [(i, r) for i, r in obs if len(r) > 4]
+            ctx.count("baseline_observations_from_the_INITIALIZED_notification", len(base_))
+            obs = [(i, r) for i, r in obs if len(r) <= 4]
+            post = [r for i, r in base_] + [r for i, r in obs if i > wi]
             pre = [r for i, r in obs if i < wi]
             # observations made at exactly the warm-up time *before* the warm-up notification (priority-10 events scheduled
             # earlier, construct_model): the statement can be read either way, so both readings are acceptable oracles
